@@ -9,6 +9,7 @@ import (
 
 	sdkmath "cosmossdk.io/math"
 	sdk "github.com/cosmos/cosmos-sdk/types"
+	authtypes "github.com/cosmos/cosmos-sdk/x/auth/types"
 	"github.com/ethereum/go-ethereum/common"
 	"pgregory.net/rapid"
 
@@ -55,6 +56,9 @@ type bmCase struct {
 
 var bmKinds = []string{"send", "send", "send", "send", "cancel", "incfee", "batch", "batch", "batch", "batchexec", "bridgecall", "deposit", "deposit", "inboundcall", "exec", "exec", "batchexec", "batchexec", "callresult", "tick", "tick", "fxblocks"}
 
+// generator alphabet: the machine's operations plus the composite "sendbatch"
+var bmKindsGen = append(append([]string{}, bmKinds...), "sendbatch", "sendbatch", "cancel", "tick", "callresult", "callresult", "bridgecall", "nonmonotone")
+
 func genBmCase(t *rapid.T, maxOps int) bmCase {
 	c := bmCase{}
 	for range baseChains {
@@ -64,9 +68,13 @@ func genBmCase(t *rapid.T, maxOps int) bmCase {
 		c.FxBlockMs = append(c.FxBlockMs, rapid.SampledFrom([]uint64{100, 5_000, 7_000}).Draw(t, "fbt"))
 		c.ResetHeight = append(c.ResetHeight, rapid.IntRange(0, 14).Draw(t, "reset") == 0)
 	}
+	// most operations of a history work on one (chain, token) pair, so that queues, batches and
+	// timeouts of the same token pile up; the rest is spread over everything
+	focusTok := rapid.SampledFrom([]int{0, 1, 1, 2, 2}).Draw(t, "focusTok")
+	focusChain := rapid.SampledFrom([]int{0, 0, 1, 2}).Draw(t, "focusChain")
 	n := rapid.IntRange(4, maxOps).Draw(t, "nops")
 	for i := 0; i < n; i++ {
-		op := bmOp{Kind: rapid.SampledFrom(bmKinds).Draw(t, "kind")}
+		op := bmOp{Kind: rapid.SampledFrom(bmKindsGen).Draw(t, "kind")}
 		op.U = rapid.IntRange(0, 2).Draw(t, "u")
 		op.Tok = rapid.SampledFrom([]int{0, 1, 1, 1, 2, 2}).Draw(t, "tok")
 		op.Chain = rapid.SampledFrom([]int{0, 0, 1, 2}).Draw(t, "chain")
@@ -86,6 +94,42 @@ func genBmCase(t *rapid.T, maxOps int) bmCase {
 		case "batch":
 			op.Amt = rapid.SampledFrom([]int64{0, 0, 1, 10, 30}).Draw(t, "basefee")
 			op.Fee = rapid.SampledFrom([]int64{1, 1, 20, 100}).Draw(t, "minfee")
+		}
+		if rapid.IntRange(0, 9).Draw(t, "focus") < 7 {
+			op.Tok, op.Chain = focusTok, focusChain
+		}
+		if op.Kind == "nonmonotone" {
+			// a batch built after many unobserved fxcore blocks (far projected timeout), then an event
+			// that resets the projection, a newer batch of the same token (nearer timeout), and jumps of
+			// the observed height around the nearest timeout
+			mk := func(kind string, j int) bmOp {
+				o := op
+				o.Kind, o.U, o.Idx = kind, (op.U+j)%3, (op.Idx+j)%8
+				return o
+			}
+			far := mk("fxblocks", 0)
+			far.N = rapid.SampledFrom([]int64{20, 1000, 1000}).Draw(t, "far")
+			a := mk("batch", 0)
+			a.Amt, a.Fee = 0, 1
+			ev := mk("tick", 0)
+			ev.N = rapid.SampledFrom([]int64{0, 1, 5}).Draw(t, "resetTick")
+			c.Ops = append(c.Ops, mk("send", 0), far, a, ev, mk("send", 1), mk("send", 2), a)
+			for j := rapid.IntRange(1, 2).Draw(t, "jumps"); j > 0; j-- {
+				b := mk("tick", 0)
+				b.N = -int64(rapid.IntRange(1, 3).Draw(t, "b"))
+				c.Ops = append(c.Ops, b)
+			}
+			continue
+		}
+		if op.Kind == "sendbatch" {
+			// one to three transfers followed by a batch request for their token
+			k := rapid.IntRange(1, 3).Draw(t, "sb")
+			for j := 0; j < k; j++ {
+				snd := op
+				snd.Kind, snd.U, snd.Idx = "send", (op.U+j)%3, (op.Idx+j)%8
+				c.Ops = append(c.Ops, snd)
+			}
+			op.Kind, op.Amt, op.Fee = "batch", 0, 1
 		}
 		c.Ops = append(c.Ops, op)
 	}
@@ -142,6 +186,11 @@ type bmState struct {
 	labels         map[string]bool
 	observedHeight map[string]bool
 	outstanding    map[string]int64 // chain/tok: executed withdrawals - deposits (for tokens that originate on fxcore)
+	liq0           map[string]int64 // chain/tok: what the bridge side of a module-owned token held at the start
+	depCh          map[string]int64 // chain/tok: deposits observed
+	wdCh           map[string]int64 // chain/tok: withdrawals observed as executed
+	erc20Pool0     map[string]int64 // chain/tok: bridge denomination held by the erc20 module at the start
+	rec            *ev.Recorder
 }
 
 func (s *bmState) tok(i int) *sim.Token { return s.f.Tokens[i%len(s.f.Tokens)] }
@@ -181,8 +230,12 @@ func (s *bmState) tokOfContract(chain, contract string) int {
 
 // inFlight / pendingInbound read from the raw stores.
 func (s *bmState) inFlight(ctx sdk.Context, ti int) *big.Int {
+	return s.inFlightOn(ctx, ti, baseChains...)
+}
+
+func (s *bmState) inFlightOn(ctx sdk.Context, ti int, chains ...string) *big.Int {
 	sum := new(big.Int)
-	for _, ch := range baseChains {
+	for _, ch := range chains {
 		k := s.f.Keeper(ch)
 		for _, tx := range k.GetUnbatchedTransactions(ctx) {
 			if s.tokOfContract(ch, tx.Token.Contract) == ti {
@@ -214,8 +267,12 @@ func (s *bmState) inFlight(ctx sdk.Context, ti int) *big.Int {
 }
 
 func (s *bmState) pendingInbound(ctx sdk.Context, ti int) *big.Int {
+	return s.pendingInboundOn(ctx, ti, baseChains...)
+}
+
+func (s *bmState) pendingInboundOn(ctx sdk.Context, ti int, chains ...string) *big.Int {
 	sum := new(big.Int)
-	for _, ch := range baseChains {
+	for _, ch := range chains {
 		k := s.f.Keeper(ch)
 		for _, n := range s.pending[ch] {
 			cl, ok := k.GetPendingExecuteClaim(ctx, n)
@@ -239,12 +296,41 @@ func (s *bmState) pendingInbound(ctx sdk.Context, ti int) *big.Int {
 	return sum
 }
 
+// chainLiquidity is what a module-owned token's contract on one external chain can still pay out
+// according to the history: what it held at the start + deposits executed - withdrawals executed -
+// what is queued towards it. parked is the part of it that bridge-call refunds left in the erc20
+// module's conversion pool instead of the chain's bridge module (known finding).
+func (s *bmState) chainLiquidity(ctx sdk.Context, ti int, ch string) (liq *big.Int, parked *big.Int) {
+	key := ch + "/" + fmt.Sprint(ti)
+	liq = big.NewInt(s.liq0[key] + s.depCh[key] - s.wdCh[key])
+	liq.Sub(liq, s.pendingInboundOn(ctx, ti, ch))
+	liq.Sub(liq, s.inFlightOn(ctx, ti, ch))
+	parked = s.f.App.BankKeeper.GetBalance(ctx, authtypes.NewModuleAddress(erc20types.ModuleName), s.tok(ti).Bridge[ch]).Amount.BigInt()
+	parked.Sub(parked, big.NewInt(s.erc20Pool0[key]))
+	if parked.Sign() < 0 {
+		parked = new(big.Int)
+	}
+	return liq, parked
+}
+
 func (s *bmState) ledger(ctx sdk.Context, desc string) *Failure {
 	for ti := range s.f.Tokens {
 		lhs := new(big.Int).Add(s.held(ctx, ti), s.inFlight(ctx, ti))
 		lhs.Add(lhs, s.pendingInbound(ctx, ti))
 		rhs := new(big.Int).Add(s.initial[ti], s.deposits[ti])
 		rhs.Sub(rhs, s.withdrawn[ti])
+		if s.tok(ti).Kind == sim.KindModule {
+			// a token that lives on several external chains: what is queued towards one chain plus what
+			// was executed there never exceeds what came in through that chain (its contract holds no more)
+			for _, ch := range baseChains {
+				key := ch + "/" + fmt.Sprint(ti)
+				liq, _ := s.chainLiquidity(ctx, ti, ch)
+				if liq.Sign() < 0 {
+					return failf("C04/chain-overdrawn/"+s.tok(ti).Kind, "%s: token %s on %s: in flight %s + executed withdrawals %d exceed what the chain's contract holds (initial %d + executed deposits %s): short by %s",
+						desc, s.tok(ti).Name, ch, s.inFlightOn(ctx, ti, ch), s.wdCh[key], s.liq0[key], new(big.Int).Sub(big.NewInt(s.depCh[key]), s.pendingInboundOn(ctx, ti, ch)), new(big.Int).Neg(liq))
+				}
+			}
+		}
 		if lhs.Cmp(rhs) != 0 {
 			return failf("C04/ledger-imbalance/"+s.tok(ti).Kind, "%s: token %s: held %s + in flight %s + pending inbound %s = %s, but initial %s + deposits %s - executed withdrawals %s = %s (difference %s)",
 				desc, s.tok(ti).Name, s.held(ctx, ti), s.inFlight(ctx, ti), s.pendingInbound(ctx, ti), lhs, s.initial[ti], s.deposits[ti], s.withdrawn[ti], rhs, new(big.Int).Sub(lhs, rhs))
@@ -367,7 +453,7 @@ func runBridgeMachine(c bmCase, which string, rec *ev.Recorder) *Failure {
 	f := base()
 	ctx, _ := f.Ctx.CacheContext()
 	s := &bmState{f: f, which: which, txs: map[string]*bmTx{}, batches: map[string]*bmBatch{}, calls: map[string]*bmCall{}, extH: map[string]uint64{},
-		lastBatchExec: map[string]uint64{}, pending: map[string][]uint64{}, deposits: map[int]*big.Int{}, withdrawn: map[int]*big.Int{}, initial: map[int]*big.Int{}, labels: map[string]bool{}, observedHeight: map[string]bool{}, outstanding: map[string]int64{}}
+		lastBatchExec: map[string]uint64{}, pending: map[string][]uint64{}, deposits: map[int]*big.Int{}, withdrawn: map[int]*big.Int{}, initial: map[int]*big.Int{}, labels: map[string]bool{}, observedHeight: map[string]bool{}, outstanding: map[string]int64{}, liq0: map[string]int64{}, depCh: map[string]int64{}, wdCh: map[string]int64{}, erc20Pool0: map[string]int64{}, rec: rec}
 	gov := sim.GovAddr.String()
 	for i, ch := range baseChains {
 		k := f.Keeper(ch)
@@ -391,9 +477,24 @@ func runBridgeMachine(c bmCase, which string, rec *ev.Recorder) *Failure {
 			s.labels["no-observed-height"] = true
 		}
 	}
+	// configuration: every FX that circulated on the external chain at genesis has been bridged back
+	// (the genesis escrow of the first chain's module has been paid out), so the escrow holds exactly
+	// what this history puts there and a shortfall of a single unit is observable
+	if bal := f.App.BankKeeper.GetBalance(ctx, authtypes.NewModuleAddress(baseChains[0]), fxtypes.DefaultDenom); bal.IsPositive() {
+		if err := f.App.BankKeeper.SendCoinsFromModuleToAccount(ctx, baseChains[0], authtypes.NewModuleAddress("verif-sink"), sdk.NewCoins(bal)); err != nil {
+			return failf("harness", "drain genesis escrow: %v", err)
+		}
+	}
 	for ti := range f.Tokens {
 		s.deposits[ti], s.withdrawn[ti] = new(big.Int), new(big.Int)
 		s.initial[ti] = new(big.Int).Add(s.held(ctx, ti), s.inFlight(ctx, ti))
+		for ch, denom := range s.tok(ti).Bridge {
+			if s.tok(ti).Kind != sim.KindModule {
+				continue
+			}
+			s.liq0[ch+"/"+fmt.Sprint(ti)] = f.App.BankKeeper.GetBalance(ctx, authtypes.NewModuleAddress(ch), denom).Amount.Int64()
+			s.erc20Pool0[ch+"/"+fmt.Sprint(ti)] = f.App.BankKeeper.GetBalance(ctx, authtypes.NewModuleAddress(erc20types.ModuleName), denom).Amount.Int64()
+		}
 	}
 	usersHex := func(u int) common.Address { return f.Users[u%3].Hex() }
 
@@ -429,6 +530,19 @@ func runBridgeMachine(c bmCase, which string, rec *ev.Recorder) *Failure {
 			for _, mb := range s.batches {
 				if mb.Chain == ch && mb.Tok == ti {
 					fee += 60
+				}
+			}
+			if op.Idx == 7 && !(op.EVM && t.Kind == sim.KindFX && op.Flag) {
+				// a large transfer: a quarter to all of what the sender holds in the form this door takes
+				bal := f.App.BankKeeper.GetBalance(sctx, acc.Acc(), t.Base).Amount.BigInt()
+				if op.EVM {
+					bal = f.BalanceOf(sctx, t.ERC20, acc.Hex())
+				}
+				big4 := new(big.Int).Div(new(big.Int).Mul(bal, big.NewInt(op.Amt%4+1)), big.NewInt(4))
+				big4.Sub(big4, big.NewInt(fee))
+				if big4.Sign() > 0 && big4.IsInt64() && big4.Int64() < 1<<50 {
+					amt = big4.Int64()
+					s.labels["large-send"] = true
 				}
 			}
 			dest := sim.ExtAddrN(ch, "dest", op.Idx)
@@ -481,7 +595,28 @@ func runBridgeMachine(c bmCase, which string, rec *ev.Recorder) *Failure {
 			var m *bmTx
 			id := uint64(9999)
 			if op.Idx%8 != 7 { // 7: a non-existent id
-				m = s.txs[s.txOrder[op.Idx%len(s.txOrder)]]
+				cands := s.txOrder
+				if op.Flag { // aim at what is still queued, first at transfers that came back from a timed-out batch
+					var pool, back []string
+					for _, key := range s.txOrder {
+						if s.txs[key].State == "pool" {
+							pool = append(pool, key)
+							if s.txs[key].Batch != 0 {
+								back = append(back, key)
+							}
+						}
+					}
+					if len(back) > 0 && op.Idx%2 == 0 {
+						cands = back
+					} else if len(pool) > 0 {
+						cands = pool
+					}
+				}
+				m = s.txs[cands[op.Idx%len(cands)]]
+				if op.Flag && op.Amt%4 != 0 { // mostly the owner asks
+					u = m.Sender
+					acc = f.Users[u]
+				}
 				id = m.ID
 				ch = m.Chain
 				k = f.Keeper(ch)
@@ -570,6 +705,11 @@ func runBridgeMachine(c bmCase, which string, rec *ev.Recorder) *Failure {
 					m.State, m.Batch = "batch", nb.BatchNonce
 					mb.TxIDs = append(mb.TxIDs, tx.Id)
 				}
+				for _, older := range s.batches {
+					if older.Chain == ch && older.Tok == ti && older.State == "open" && older.Timeout > mb.Timeout {
+						s.labels["older-batch-with-later-timeout"] = true
+					}
+				}
 				s.batches[bmKey(ch, nb.BatchNonce)] = mb
 				s.labels["batch"] = true
 			}
@@ -648,6 +788,7 @@ func runBridgeMachine(c bmCase, which string, rec *ev.Recorder) *Failure {
 			}
 			s.pending[ch] = append(s.pending[ch], n)
 			s.deposits[ti].Add(s.deposits[ti], big.NewInt(op.Amt))
+			s.depCh[ch+"/"+fmt.Sprint(ti)] += op.Amt
 			s.observedHeight[ch] = true
 			noteObserved(ch)
 			s.labels["deposit"] = true
@@ -719,6 +860,7 @@ func runBridgeMachine(c bmCase, which string, rec *ev.Recorder) *Failure {
 				m.State = "executed"
 				s.withdrawn[mb.Tok].Add(s.withdrawn[mb.Tok], big.NewInt(m.Amount+m.Fee))
 				s.outstanding[ch+"/"+fmt.Sprint(mb.Tok)] += m.Amount + m.Fee
+				s.wdCh[ch+"/"+fmt.Sprint(mb.Tok)] += m.Amount + m.Fee
 			}
 			// older open batches of that token are cancelled (their transfers return to the pool)
 			for _, ob := range s.batches {
@@ -767,6 +909,7 @@ func runBridgeMachine(c bmCase, which string, rec *ev.Recorder) *Failure {
 				// the external chain provably executed the call: the value has left
 				s.withdrawn[mc.Tok].Add(s.withdrawn[mc.Tok], big.NewInt(mc.Amt))
 				s.outstanding[ch+"/"+fmt.Sprint(mc.Tok)] += mc.Amt
+				s.wdCh[ch+"/"+fmt.Sprint(mc.Tok)] += mc.Amt
 				s.labels["call-executed-externally"] = true
 			}
 			noteObserved(ch)
@@ -901,6 +1044,11 @@ func runBridgeMachine(c bmCase, which string, rec *ev.Recorder) *Failure {
 			}
 		}
 	}
+	if which == "C04" {
+		if fl := s.probe(ctx); fl != nil {
+			return fl
+		}
+	}
 	// classification
 	var labels []string
 	for l := range s.labels {
@@ -921,7 +1069,7 @@ func runBridgeMachine(c bmCase, which string, rec *ev.Recorder) *Failure {
 	case "C05":
 		nontrivial = s.labels["batch"] && (s.labels["cancel-after-batch"] || s.labels["out-of-order-batch-exec"] || s.labels["incfee"] || s.labels["batch-timeout"])
 	case "C06":
-		nontrivial = (s.labels["batch-timeout"] || s.labels["call-timeout"]) && (s.labels["batchexec"] || s.labels["call-executed-externally"] || s.labels["boundary-height"])
+		nontrivial = (s.labels["batch-timeout"] || s.labels["call-timeout"]) && (s.labels["batchexec"] || s.labels["call-executed-externally"] || s.labels["boundary-height"] || s.labels["older-batch-with-later-timeout"])
 	}
 	sigOps := ""
 	for _, op := range c.Ops {
@@ -934,6 +1082,117 @@ func runBridgeMachine(c bmCase, which string, rec *ev.Recorder) *Failure {
 	rec.Label("steps", len(c.Ops))
 	if nontrivial && rec.WantSample() {
 		rec.Sample(c)
+	}
+	return nil
+}
+
+// probe asks, on a branch of the final state, for everything the bridge owes at once: every queued
+// transfer is cancelled by its owner, every holder sends all they hold to an external chain, and
+// everything that left a token's home chain comes back as one deposit. Each request must be honoured:
+// a refusal means the bridge side does not hold what the history says it owes.
+func (s *bmState) probe(ctx0 sdk.Context) *Failure {
+	f := s.f
+	ctx, _ := ctx0.CacheContext()
+	// (A) every queued transfer is refundable
+	var keys []string
+	for key, m := range s.txs {
+		if m.State == "pool" {
+			keys = append(keys, key)
+		}
+	}
+	sort.Strings(keys)
+	for _, key := range keys {
+		m := s.txs[key]
+		pre := s.heldBy(ctx, m.Sender, m.Tok)
+		r := f.RunMsg(ctx, &crosschaintypes.MsgCancelSendToExternal{ChainName: m.Chain, Sender: f.Users[m.Sender].Acc().String(), TransactionId: m.ID})
+		if !r.OK() {
+			return failf("C04/queued-transfer-not-refundable/"+s.tok(m.Tok).Kind, "final probe: the owner's cancel of queued %s transfer %s (amount %d fee %d) is refused: %v", s.tok(m.Tok).Name, key, m.Amount, m.Fee, r.Err)
+		}
+		if got := new(big.Int).Sub(s.heldBy(ctx, m.Sender, m.Tok), pre); got.Cmp(big.NewInt(m.Amount+m.Fee)) != 0 {
+			return failf("C04/account-delta/probe-cancel", "final probe: cancel of %s refunded %s, amount+fee is %d", key, got, m.Amount+m.Fee)
+		}
+		s.labels["probe-cancel"] = true
+	}
+	// (B) holdings are withdrawable
+	for ti, t := range f.Tokens {
+		for u := 0; u < 3; u++ {
+			var chains []string
+			for _, ch := range baseChains {
+				if _, ok := t.Contracts[ch]; ok {
+					chains = append(chains, ch)
+				}
+			}
+			ch := chains[(u+ti)%len(chains)]
+			acc := f.Users[u]
+			parkedHere := false
+			amt := f.App.BankKeeper.GetBalance(ctx, acc.Acc(), t.Base).Amount.BigInt()
+			if t.Kind == sim.KindModule {
+				// a token that lives on several external chains can leave through one of them only up to
+				// what came in through it
+				liq, parked := s.chainLiquidity(ctx, ti, ch)
+				if parked.Sign() > 0 {
+					parkedHere = true
+					if isKnown("C04/holdings-not-withdrawable/module-owned/after-bridge-call-refund") {
+						// known finding: keep searching behind it by not asking for the parked part
+						liq.Sub(liq, parked)
+						s.rec.Exclude("withdrawal probe reduced by what bridge-call refunds parked in the erc20 module (known finding)")
+					}
+				}
+				if liq.Cmp(amt) < 0 {
+					amt = liq
+					s.labels["probe-liquidity-bound"] = true
+				}
+			}
+			if amt.Cmp(big.NewInt(2)) < 0 {
+				continue
+			}
+			send := new(big.Int).Sub(amt, big.NewInt(1))
+			r := f.RunMsg(ctx, &crosschaintypes.MsgSendToExternal{ChainName: ch, Sender: acc.Acc().String(), Dest: sim.ExtAddrN(ch, "dest", u), Amount: sdk.NewCoin(t.Base, sdkmath.NewIntFromBigInt(send)), BridgeFee: sdk.NewCoin(t.Base, sdkmath.OneInt())})
+			if !r.OK() {
+				key := ch + "/" + fmt.Sprint(ti)
+				if parkedHere {
+					_, parked := s.chainLiquidity(ctx, ti, ch)
+					return failf("C04/holdings-not-withdrawable/"+t.Kind+"/after-bridge-call-refund", "final probe: user %d holds %s %s and asks to send %s (+1 fee) to %s, which the chain's contract can pay: refused: %v (refunds of outgoing bridge calls left %s of the %s bridge denomination in the erc20 module's conversion pool, where sends to the external chain do not look)", u, amt, t.Base, send, ch, r.Err, parked, ch)
+				}
+				return failf("C04/holdings-not-withdrawable/"+t.Kind, "final probe: user %d holds %s %s and asks to send %s (+1 fee) to %s: refused: %v (chain ledger: initial %d + deposits %d - executed withdrawals %d - unexecuted inbound %s - in flight %s; bridge side holds %s)", u, amt, t.Base, send, ch, r.Err,
+					s.liq0[key], s.depCh[key], s.wdCh[key], s.pendingInboundOn(ctx, ti, ch), s.inFlightOn(ctx, ti, ch), f.App.BankKeeper.GetBalance(ctx, authtypes.NewModuleAddress(ch), t.Bridge[ch]).Amount)
+			}
+			s.labels["probe-withdraw"] = true
+		}
+	}
+	// (C) what left a token's home chain can come back
+	var outKeys []string
+	for key, out := range s.outstanding {
+		if out > 0 {
+			outKeys = append(outKeys, key)
+		}
+	}
+	sort.Strings(outKeys)
+	for _, key := range outKeys {
+		var ch string
+		var ti int
+		parts := strings.SplitN(key, "/", 2)
+		ch = parts[0]
+		fmt.Sscan(parts[1], &ti)
+		t := s.tok(ti)
+		if t.Kind == sim.KindModule {
+			continue
+		}
+		out := s.outstanding[key]
+		recv := f.Users[3]
+		pre := s.heldBy(ctx, 3, ti)
+		claim := &crosschaintypes.MsgSendToFxClaim{TokenContract: t.Contracts[ch], Amount: sdkmath.NewInt(out), Sender: sim.ExtAddrN(ch, "extuser", 0), Receiver: recv.Acc().String(), TargetIbc: ""}
+		n, err := s.observe(ctx, ch, claim)
+		if err != nil {
+			return s.observeFailure(err, "final probe", "deposit")
+		}
+		if r := f.ExecuteClaim(ctx, recv, ch, n); !r.Success() {
+			return failf("C04/returning-funds-not-released/"+t.Kind, "final probe: %d %s are out on %s (executed withdrawals minus deposits); their deposit back is observed but cannot be executed: %+v %v", out, t.Name, ch, r.Resp, r.Err)
+		}
+		if got := new(big.Int).Sub(s.heldBy(ctx, 3, ti), pre); got.Cmp(big.NewInt(out)) != 0 {
+			return failf("C04/account-delta/probe-deposit", "final probe: deposit of %d %s credited %s", out, t.Name, got)
+		}
+		s.labels["probe-return"] = true
 	}
 	return nil
 }
